@@ -261,6 +261,26 @@ func (s *LinearState) rem(ctx *Context, id string, lock bool) (bool, error) {
 	return had, nil
 }
 
+// remHookDependent runs the remHook for a fact that is about to be
+// deleted along with the fact it depends on.  We are in the middle
+// of a rem(), which holds the state lock, so the hook must not try
+// to get it.
+func (s *LinearState) remHookDependent(ctx *Context, id string) error {
+	if s.remHook == nil {
+		return nil
+	}
+	if !ctx.isPrivileged("hook") {
+		ctx.grantPrivilege("hook")
+		defer ctx.revokePrivilege()
+	}
+	err := s.remHook(ctx, s, id)
+	if err != nil {
+		Log(ERROR, ctx, "LinearState.deleteDependencies", "state", s.Name, "error", err,
+			"id", id, "when", "remHook")
+	}
+	return err
+}
+
 func (s *LinearState) deleteDependencies(ctx *Context, id string) error {
 	Log(DEBUG, ctx, "LinearState.deleteDependencies", "id", id)
 	pattern := Map{
@@ -275,6 +295,9 @@ func (s *LinearState) deleteDependencies(ctx *Context, id string) error {
 		if id == sr.Id {
 			Log(WARN, ctx, "LinearState.deleteDependencies", "loop", id)
 			continue
+		}
+		if err := s.remHookDependent(ctx, sr.Id); nil != err {
+			return err
 		}
 		if _, err := s.rem(ctx, sr.Id, false); nil != err {
 			return err
